@@ -14,7 +14,7 @@ echo "changed: $files"
 if echo "$files" | grep -q "_test.go"; then echo "vetmutant: touches tests"; exit 1; fi
 go build ./... || { echo "vetmutant: BUILD FAILS"; exit 1; }
 demo_cmd="go test -count=1 ./demo_mutant/"
-[ -x demo_mutant/run.sh ] && demo_cmd="bash demo_mutant/run.sh"
+[ -f demo_mutant/run.sh ] && demo_cmd="bash demo_mutant/run.sh"
 # 1. existing tests with the change (demo excluded)
 pkgs=$(go list ./... | grep -v demo_mutant)
 go test -vet=off -count=1 $pkgs > /var/tmp/vet.$id.tests 2>&1
@@ -25,11 +25,13 @@ echo "existing tests: ok (only baseline failures)"
 # 2. demo fails with the change
 $demo_cmd > /var/tmp/vet.$id.demo1 2>&1; rc1=$?
 # 3. demo passes without
-git stash push -q -- $files || exit 2
+# (not git stash: refs/stash is shared by all worktrees of the repository)
+git diff -- $files > /var/tmp/vet.$id.src.patch || exit 2
+git checkout -- $files || exit 2
 $demo_cmd > /var/tmp/vet.$id.demo2 2>&1; rc2=$?
-git stash pop -q || { echo "vetmutant: stash pop failed"; exit 2; }
+git apply /var/tmp/vet.$id.src.patch || { echo "vetmutant: re-apply failed"; exit 2; }
 echo "demo with change rc=$rc1, without rc=$rc2"
-if [ $rc1 = 0 ] || [ $rc2 != 0 ]; then echo "vetmutant: DEMO DOES NOT DISCRIMINATE"; tail -5 /var/tmp/vet.$id.demo1 /var/tmp/vet.$id.demo2; exit 1; fi
+if [ $rc1 = 0 ] || [ $rc2 != 0 ]; then echo "vetmutant: DEMO DOES NOT DISCRIMINATE"; tail -n 5 /var/tmp/vet.$id.demo1; tail -n 5 /var/tmp/vet.$id.demo2; exit 1; fi
 d=/verif/seeded/$id; rm -rf "$d"; mkdir -p "$d"
 cp MUTANT.diff "$d/patch.diff"; cp -r demo_mutant "$d/"; [ -f MUTANT.md ] && cp MUTANT.md "$d/"
 python3 - "$d" "$prop" "$files" "$demo_cmd" <<'PY'
